@@ -14,6 +14,7 @@ CONSTANTS
   ReopenC = {"mem"}
   RenderViaC = {"doc", "legacy"}
   RenderImgC = {"none", "png"}
+  PrepC = {TRUE, FALSE}
   TkC = {"var", "image"}
   MkC = {"all"}
   MdViaC = {"file"}
